@@ -279,6 +279,7 @@ def install_batch2(w):
                       "cast_node is exp.Cast or cast_node is exp.TryCast"],
             # complete case split over the precondition's two admissible classes (the callable is then a constant in each case)
             cases=[{"bind": {"cast_node": exp.Cast}, "label": "Cast"}, {"bind": {"cast_node": exp.TryCast}, "label": "TryCast"}],
+            when_facts=True,
             result=E,
             modifies=NEW,
             raises={NotImplementedError: {"when": f"old({HASFMT})", "ensures": {}, "modifies": []}},
@@ -288,9 +289,9 @@ def install_batch2(w):
                 f"and cls_is({TO}, exp.DataType) and arg({TO}, 'this') == {T}.DECIMAL and seq_len({TOX}) == 2",
                 # TO_DECIMAL(x [, p [, s]]): precision defaults to 38, scale to 0
                 "C10._to_decimal.precision": f"(seq_at({TOX}, 0) is old(seq_at({XS}, 1))) if old(seq_len({XS})) > 1 else "
-                f"(cls_is(seq_at({TOX}, 0), exp.Literal) and arg(seq_at({TOX}, 0), 'this') == '38' and not bool(arg(seq_at({TOX}, 0), 'is_string')))",
+                f"(cls_is(seq_at({TOX}, 0), exp.Literal) and arg(seq_at({TOX}, 0), 'this') == '38' and arg(seq_at({TOX}, 0), 'is_string') == False)",
                 "C10._to_decimal.scale": f"(seq_at({TOX}, 1) is old(seq_at({XS}, 2))) if old(seq_len({XS})) > 2 else "
-                f"(cls_is(seq_at({TOX}, 1), exp.Literal) and arg(seq_at({TOX}, 1), 'this') == '0' and not bool(arg(seq_at({TOX}, 1), 'is_string')))",
+                f"(cls_is(seq_at({TOX}, 1), exp.Literal) and arg(seq_at({TOX}, 1), 'this') == '0' and arg(seq_at({TOX}, 1), 'is_string') == False)",
             },
             props=["C10"],
         )
@@ -361,6 +362,83 @@ def install_batch3(w):
                 "C10.dateadd_literal.cast": f"implies(old({DL}), is_fresh(result) and same_class(result, expression) and cls_is(arg(result, 'this'), exp.Cast) and arg(arg(result, 'this'), 'this') is old({THIS}) "
                 f"and cls_is(arg(arg(result, 'this'), 'to'), exp.DataType) and arg(arg(arg(result, 'this'), 'to'), 'this') == {T}.TIMESTAMP)",
                 "C10.dateadd_literal.else_untouched": f"implies(not old({DL}), result is expression)",
+            },
+            props=["C10"],
+        )
+    )
+
+
+    install_decimal_dispatch(w)
+
+
+def install_decimal_dispatch(w):
+    """to_decimal / try_to_decimal on top of _to_decimal's and _get_to_number_args's contracts"""
+    from sqlglot import exp
+
+    E = exp.Expression
+    T = "exp.DataType.Type"
+    THIS = "arg(expression, 'this')"
+    NEW = ["*.parent", "$ghost:$treever"]
+    XS = "node_expressions(expression)"
+    TO = "arg(result, 'to')"
+    TOX = f"node_expressions({TO})"
+    HASFMT = f"(seq_len({XS}) > 1 and isinstance(seq_at({XS}, 1), exp.Literal) and bool(arg(seq_at({XS}, 1), 'is_string')))"
+
+    def anon(*names):
+        return f"(isinstance(expression, exp.Anonymous) and isinstance({THIS}, str) and ({' or '.join(f'upper({THIS}) == {n!r}' for n in names)}))"
+
+    F_, P_, S_ = "arg(expression, 'format')", "arg(expression, 'precision')", "arg(expression, 'scale')"
+    ISFMT = f"(bool({F_}) and isinstance({F_}, exp.Literal) and bool(arg({F_}, 'is_string')))"
+    TN = "isinstance(expression, exp.ToNumber)"
+    ANON_D = anon("TO_DECIMAL", "TO_NUMERIC")
+    LIT = lambda node, text: f"(cls_is({node}, exp.Literal) and arg({node}, 'this') == '{text}' and arg({node}, 'is_string') == False)"  # noqa: E731
+    ANON_SHAPES = lambda cond: [  # noqa: E731
+        # (trivially true; read first so that the argument list is known to be allocated before entry)
+        f"seq_len({XS}) >= 0",
+        # field shapes (A-SQLGLOT 1): the arguments of a parsed call are nodes, at least one; is_string of a node is a bool or absent
+        f"implies({cond}, seq_len({XS}) >= 1 and isinstance(seq_at({XS}, 0), exp.Expression))",
+        f"implies({cond} and seq_len({XS}) > 1, isinstance(seq_at({XS}, 1), exp.Expression))",
+        f"implies({cond} and seq_len({XS}) > 2, isinstance(seq_at({XS}, 2), exp.Expression))",
+        f"implies({cond} and seq_len({XS}) > 1, arg(seq_at({XS}, 1), 'is_string') is None or isinstance(arg(seq_at({XS}, 1), 'is_string'), bool))",
+    ]
+    ANON_T = anon("TRY_TO_DECIMAL", "TRY_TO_NUMBER", "TRY_TO_NUMERIC")
+    w.add_contract(
+        Contract(
+            "fakesnow.transforms.try_to_decimal",
+            params={"expression": E},
+            requires=ANON_SHAPES(ANON_T),
+            result=E,
+            modifies=NEW,
+            raises={NotImplementedError: {"when": f"old({ANON_T} and {HASFMT})", "ensures": {}, "modifies": []}},
+            ensures={
+                # the TRY_ forms give NULL instead of an error: a TRY_CAST, never a CAST
+                "C10.try_to_decimal.try_cast": f"implies(old({ANON_T}), is_fresh(result) and cls_is(result, exp.TryCast) and arg(result, 'this') is old(seq_at({XS}, 0)) and arg({TO}, 'this') == {T}.DECIMAL and seq_len({TOX}) == 2)",
+                "C10.try_to_decimal.precision": f"implies(old({ANON_T}), (seq_at({TOX}, 0) is old(seq_at({XS}, 1))) if old(seq_len({XS})) > 1 else {LIT(f'seq_at({TOX}, 0)', '38')})",
+                "C10.try_to_decimal.scale": f"implies(old({ANON_T}), (seq_at({TOX}, 1) is old(seq_at({XS}, 2))) if old(seq_len({XS})) > 2 else {LIT(f'seq_at({TOX}, 1)', '0')})",
+                "C10.try_to_decimal.else_untouched": f"implies(not old({ANON_T}), result is expression)",
+            },
+            props=["C10"],
+        )
+    )
+    w.add_contract(
+        Contract(
+            "fakesnow.transforms.to_decimal",
+            params={"expression": E},
+            requires=[f"implies({TN}, ({F_} is None or isinstance({F_}, exp.Expression)) and ({P_} is None or isinstance({P_}, exp.Expression)) and ({S_} is None or isinstance({S_}, exp.Expression)))",
+                      f"implies({TN} and isinstance({F_}, exp.Expression), arg({F_}, 'is_string') is None or isinstance(arg({F_}, 'is_string'), bool))"] + ANON_SHAPES(ANON_D),
+            result=E,
+            modifies=NEW,
+            raises={NotImplementedError: {"when": f"old(({TN} and {ISFMT}) or (not {TN} and {ANON_D} and {HASFMT}))", "ensures": {}, "modifies": []}},
+            ensures={
+                "C10.to_decimal.number_cast": f"implies({TN}, is_fresh(result) and cls_is(result, exp.Cast) and arg(result, 'this') is old({THIS}) and cls_is({TO}, exp.DataType) and arg({TO}, 'this') == {T}.DECIMAL and seq_len({TOX}) == 2)",
+                # TO_NUMBER(x [, precision [, scale]]): the second argument (parsed into `format` when it is the only one) is the precision; defaults 38 and 0
+                "C10.to_decimal.number_precision": f"implies({TN}, (seq_at({TOX}, 0) is old({F_})) if old(bool({F_})) else ((seq_at({TOX}, 0) is old({P_})) if old(bool({P_})) else {LIT(f'seq_at({TOX}, 0)', '38')}))",
+                "C10.to_decimal.number_scale": f"implies({TN}, ((seq_at({TOX}, 1) is old({P_})) if old(bool({P_})) else {LIT(f'seq_at({TOX}, 1)', '0')}) if old(bool({F_})) else "
+                f"((seq_at({TOX}, 1) is old({S_})) if old(bool({P_}) and bool({S_})) else {LIT(f'seq_at({TOX}, 1)', '0')}))",
+                "C10.to_decimal.decimal_cast": f"implies(not {TN} and old({ANON_D}), is_fresh(result) and cls_is(result, exp.Cast) and arg(result, 'this') is old(seq_at({XS}, 0)) and arg({TO}, 'this') == {T}.DECIMAL and seq_len({TOX}) == 2)",
+                "C10.to_decimal.decimal_precision": f"implies(not {TN} and old({ANON_D}), (seq_at({TOX}, 0) is old(seq_at({XS}, 1))) if old(seq_len({XS})) > 1 else {LIT(f'seq_at({TOX}, 0)', '38')})",
+                "C10.to_decimal.decimal_scale": f"implies(not {TN} and old({ANON_D}), (seq_at({TOX}, 1) is old(seq_at({XS}, 2))) if old(seq_len({XS})) > 2 else {LIT(f'seq_at({TOX}, 1)', '0')})",
+                "C10.to_decimal.else_untouched": f"implies(not {TN} and not old({ANON_D}), result is expression)",
             },
             props=["C10"],
         )
